@@ -445,10 +445,14 @@ def run(ctx: Ctx):
     for n in own_nodes(w.node):
         if isinstance(n, ast.Return) and "adapter(" in ast.unparse(n):
             at = gv.guard_atoms(cfg.node_of(n), stable_only=False)
-            ctx.ob("C12-O5", "R18 routing", w, "adapter is used only when the rust back-end was selected and an adapter exists", "'rust' == selected" in at or "selected == 'rust'" in at and "T:adapter" in at, f"{sorted(at)}", node=n)
+            ctx.ob("C12-O5", "R18 routing", w, "adapter is used only when the rust back-end was selected and an adapter exists", ("'rust' == selected" in at or "selected == 'rust'" in at) and "T:adapter" in at, f"{sorted(at)}", node=n)
     gb = ctx.func("rust", "get_backend")
     tb = ast.unparse(gb.node)
     ctx.ob("C12-O5", "R18 routing", gb, "explicit 'python' never routes to rust; explicit 'rust' raises when unavailable", "if requested == 'python':\n        return 'python'" in tb and "raise ImportError" in tb, "", node=gb.node)
+    from .sat_common import _need as _need_r
+
+    ctx.step(_need_r, "C12-O5", "R18 routing", gb, "back-end choice: 'python' -> python; 'rust' -> rust or ImportError when the extension is missing; otherwise rust exactly when it is available", ["if requested == 'python':\n        return 'python'", "if requested == 'rust':\n        if not rust_available():\n            raise ImportError(", "return 'rust'\n    if rust_available():\n        return 'rust'\n    _warn_fallback()\n    return 'python'"])
+    ctx.step(_need_r, "C12-O5", "R18 routing", ctx.func("rust", "rust_available"), "availability is decided once by importing the extension: True on success, False on ImportError", ["if _rust_available is None:\n        try:\n            import solvor._solvor_rust\n            _rust_available = True\n        except ImportError:\n            _rust_available = False\n    return _rust_available"])
     ra = ctx.func("rust", "rust_adapter.decorator")
     ctx.ob("C12-O5", "R18 routing", ra, "rust_adapter registers the function under the given name and returns it unchanged", "_adapters[name] = fn" in ast.unparse(ra.node) and "return fn" in ast.unparse(ra.node), "", node=ra.node)
     # O9 an adapter gives no verdict of its own: every Result it builds comes after the kernel call it reports on
